@@ -259,16 +259,21 @@ def events(ops, states, upto, k, sp=None):
     """risk events that touched iterator k (k < 0: any) before op index `upto`, read off the plain-list run:
     E push while the iterator stood at the end, A other push, D delete by name/position, P pop, S shift,
     Q pop of the host the iterator stands on (it returned that host last), R own removal, M removal through another
-    iterator, U uniq/sort; only events since the iterator's last (re)start"""
+    iterator, U uniq/sort, N the iterator's last restart is a uniq/sort that left the list as it was while the
+    iterator was not at the start; only events since the iterator's last (re)start"""
     ev = set()
     start = 0
     beyond = False
+    same = False
     if k >= 0:
         for i, o in enumerate(ops[:upto]):
             w = o.split()
             if (w[0] in ("it_new",) and states[i] is not None and k in states[i][1] and (i == 0 or states[i - 1] is None or k not in states[i - 1][1])) \
                or (w[0] == "it_reset" and int(w[1]) == k) or w[0] in ("uniq", "sort"):
                 start = i
+                same = w[0] in ("uniq", "sort") and sp is not None and 0 < i and i + 1 < len(sp) and \
+                    ops[i - 1].startswith("hosts") and ops[i + 1].startswith("hosts") and sp[i - 1] == sp[i + 1] and \
+                    states[i - 1] is not None and states[i - 1][1].get(k, 0) != 0
     for i, o in enumerate(ops[start:upto], start):
         w = o.split()
         if w[0] == "it_remove":
@@ -290,6 +295,8 @@ def events(ops, states, upto, k, sp=None):
         elif w[0] in ("uniq", "sort") and i > start:
             ev.add("U")
     ev.discard("A")
+    if same:
+        ev.add("N")
     return "+".join(sorted(ev)) or "none"
 
 
@@ -308,6 +315,18 @@ def spec_proj(op, ans):
     if w in ("push", "new", "uniq", "sort"):
         return " ".join(ans.split()[:2]) if w in ("uniq", "sort") else ans.split()[0] if w == "push" else "ok 0"
     return ans
+
+
+def normalize(ops):
+    """the plain-list spec judges uniq / sort from the lists before and after: make sure both are asked for"""
+    out = []
+    for i, o in enumerate(ops):
+        if o in ("uniq", "sort") and not (out and out[-1].startswith("hosts")):
+            out.append("hosts 100000")
+        out.append(o)
+        if o in ("uniq", "sort") and not (i + 1 < len(ops) and ops[i + 1].startswith("hosts")):
+            out.append("hosts 100000")
+    return out
 
 
 def annotate(ops, ans):
@@ -440,6 +459,7 @@ def run(ctx):
                     seqs.append(s)
                     profs.append("exhaustive")
         distinct = set()
+        seqs = [normalize(s) for s in seqs]
         for lo in range(0, len(seqs), 5000):
             chunk = seqs[lo:lo + 5000]
             eseqs = [[enc(o) for o in s] for s in chunk]
@@ -570,6 +590,7 @@ def small(ctx, hl, s, tag):
     def fails(t):
         if not t or t[0] != "new":
             return False
+        t = normalize(t)
         et = [enc(o) for o in t]
         (ans, crash), = run_batch([hl.exe], [et], env=hl.env, timeout=60)
         m = ctx.model("hl", "".join(l + "\n" for l in et), args=["edit"])
